@@ -86,7 +86,7 @@ class LoopGen:
             r = rng.random()
             f = rng.randrange(self.nfd)
             if r < 0.16:
-                k = self.new(); out += ['P', str(k)]; self.maybe_body(k, depth)
+                k = self.new(); out += [rng.choice(['P', 'P', 'P', 'PE', 'PI']), str(k)]; self.maybe_body(k, depth)
             elif r < 0.32:
                 k = self.new()
                 d = rng.choice([-5, 0, 0, 0, 1, 2, 5, 10, 10, 10, 37, 50])
@@ -183,6 +183,8 @@ def gen_cases(ctx):
         cases.append(gen_pool_case(rng))
     for i in range(ctx.scale(3, 20)):
         cases.append('pstress %d %d %d %d' % (rng.randrange(1 << 30), rng.choice([1, 2, 4]), rng.choice([2, 3, 4]), ctx.scale(150, 600)))
+    for i in range(ctx.scale(6, 60)):
+        cases.append('lstress %d %s %d %d' % (rng.randrange(1 << 30), 'eps'[i % 3], rng.choice([2, 3, 4]), ctx.scale(400, 2000)))
     n = ctx.scale(1500, 30000)
     for _ in range(n):
         c = gen_loop_case(rng)
@@ -284,6 +286,9 @@ def oracle_loop(c, out):
                     'the arm then registered a closed descriptor with the select reactor' % f)
         if f == 'LOSTWAKE':
             return ('lost-wakeup', 'the loop went to sleep for ever although a posted handler was waiting in the dispatch queue')
+        if f == 'OVERRUN':
+            return ('loop-runaway', 'more than 3000 handler invocations / 50000 operations for a script with a few dozen handlers: '
+                    'handlers are being invoked again and again')
         if f == 'LIVELOCK':
             return ('loop-livelock', 'the loop kept polling without making progress (more than 20000 polls for one script)')
         if f.startswith('EXC'):
@@ -310,7 +315,10 @@ def oracle_loop(c, out):
             return ('clock-backwards', 'log times decrease')
         last_t = t
         v = kinds[k]
-        if v == 'p':
+        if v == 'pe':
+            if code != 'can':
+                return ('post-bad-code', 'handler %s posted with the code canceled completed with %s' % (k, code))
+        elif v == 'p':
             if code != 'ok':
                 return ('post-bad-code', 'posted handler %s completed with %s' % (k, code))
         elif v[0] == 't':
